@@ -48,3 +48,15 @@ META["C03"] = {
              "the set of shipped files must equal what an independently written matcher derives from each file's own archive path."),
     "note": "lib/refignore (segment-wise, no regular expressions, no pruning) is the trusted reference.",
 }
+META["C05"] = {
+    "technique": "rapid PBT over link-intent trees in an arena with tagged outside content; invariants over the decoded slug; Unpack acceptance",
+    "text": ("Trees with links drawn by intent are packed under all option sets; the decoded slug is checked for leaked OUT:-tagged content, "
+             "stored out-of-tree links, unclean names and escaping relative links, and Unpack must accept it. One known finding (link re-entering "
+             "the root by its name) is excluded at the oracle and replayed."),
+    "note": "Outside content is recognised by OUT: tokens; link classification is lexical (one hop) as the property states.",
+}
+META["C20"] = {
+    "technique": "rapid PBT over trees x packer options; returned Meta compared with headers and bodies read back from the slug",
+    "text": "For every generated tree/option set the returned file list and size are compared with the decoded archive (names in order, header sizes, body bytes).",
+    "note": "Trusts archive/tar for decoding.",
+}
